@@ -61,8 +61,15 @@ def gen_case(rng, tier, force=None):
     Dmax = 6 if tier == "quick" else 10
     D = rng.randint(2, Dmax)
     K = rng.randint(1, D - 1)
-    kind = force or rng.choice(["affine", "affine", "nonlinear", "nonlinear", "nonlinear"])
+    kind = force or rng.choice(["affine"] * 4 + ["nonlinear"] * 5 + ["stall"])
     update = False
+    stall = False
+    if kind == "stall":
+        # two affine rows that contradict each other + nonlinear rows: the residual cannot
+        # vanish, the increments shrink gradually -> exits through the increment test
+        kind, stall = "nonlinear", True
+        D = max(D, 4)
+        K = rng.randint(3, D - 1)
     if kind == "update":               # affine residual through the dense SSM (D even)
         kind = "affine"
         update = True
@@ -73,18 +80,20 @@ def gen_case(rng, tier, force=None):
         if all(v == 0 for v in r):
             r[rng.randrange(D)] = Fr(rng.choice([-4, -2, 1, 3, 4]), 4)
     dup = False
-    if K >= 2 and rng.random() < 0.1 and not update:
+    if stall or (K >= 2 and rng.random() < 0.1 and not update):
         A[K - 1] = [2 * v for v in A[0]]   # rank-deficient Jacobian (pseudo-inverse path)
         dup = True
     c = [q4(rng) for _ in range(K)]
     if dup:
-        c[K - 1] = 2 * c[0] if rng.random() < 0.7 else c[K - 1]
+        c[K - 1] = 2 * c[0] if (rng.random() < 0.7 and not stall) else c[K - 1]
+    if stall and c[K - 1] == 2 * c[0]:
+        c[K - 1] += Fr(1, 2)
     polys = []
     for i in range(K):
         p = [(A[i][j], unit(D, j)) for j in range(D) if A[i][j] != 0]
         if c[i] != 0:
             p.append((c[i], [0] * D))
-        if kind == "nonlinear" and not (dup and i == K - 1):
+        if kind == "nonlinear" and not (dup and i == K - 1) and not (stall and i == 0):
             for _ in range(rng.randint(1, 2)):
                 a, b = rng.randrange(D), rng.randrange(D)
                 ex = [0] * D
@@ -107,7 +116,7 @@ def gen_case(rng, tier, force=None):
     tol_e = rng.randint(4, 12)
     maxiter = rng.choice([1, 2, 3, 5, 10, 20, 50]) if rng.random() < 0.7 else rng.randint(1, 50)
     return {"kind": kind, "D": D, "K": K, "polys": polys, "A": A, "c": c, "m": m, "L": L, "x0": x0,
-            "tol_e": tol_e, "tol": Fr(float(Fr(1, 10 ** tol_e))), "probe": "", "maxiter": maxiter, "singular": singular, "dup": dup, "update": update}
+            "tol_e": tol_e, "tol": Fr(float(Fr(1, 10 ** tol_e))), "probe": "", "maxiter": maxiter, "singular": singular, "dup": dup, "update": update, "stall": stall}
 
 
 def to_impl(case):
@@ -185,15 +194,17 @@ def probe_cases(rng, cases, ires, limit):
             break
         c, r = cases[i], ires[i]
         traj = r["traj"]
-        j = rng.randrange(1, len(traj) - 1)
-        which = rng.choice(["residual", "increment"])
-        v = traj[j]["fx"] if which == "residual" else traj[j]["dx"]
-        size = c["K"] if which == "residual" else c["D"]
-        nrm = math.sqrt(sum(t * t for t in v))
-        if not (1e-13 < nrm / math.sqrt(size) < 1e-2):
+        which = "increment" if (c["stall"] or rng.random() < 0.5) else "residual"
+        rms = lambda v: math.sqrt(sum(t * t for t in v) / len(v))   # noqa: E731
+        # iterates at which the OTHER norm test would not stop the loop at the probed tolerance
+        cand = [j for j in range(1, len(traj) - 1)
+                if (1e-13 < rms(traj[j]["dx"]) < 1e-2 and rms(traj[j]["fx"]) > 1.01 * rms(traj[j]["dx"]) if which == "increment"
+                    else 1e-13 < rms(traj[j]["fx"]) < 1e-2 and rms(traj[j]["dx"]) > 1.01 * rms(traj[j]["fx"]))]
+        if not cand:
             continue
+        j = rng.choice(cand)
         side = rng.choice([1, -1])
-        tol = nrm / math.sqrt(size) * (1 + side * 2.0 ** -10)
+        tol = rms(traj[j]["fx"] if which == "residual" else traj[j]["dx"]) * (1 + side * 2.0 ** -10)
         pc = dict(c)
         pc["tol"] = Fr(tol)
         pc["tol_e"] = int(round(-math.log10(tol)))
@@ -381,7 +392,7 @@ def main():
                  sample={"kind": c["kind"], "D": D, "K": K, "iters": k, "maxiter": c["maxiter"], "tol": tol,
                          "singular_factor": c["singular"], "polys": jsonable(c["polys"])},
                  kind=c["kind"] + ("+update" if c["update"] else ""), D=D, K=K, iters=min(k, 10), tol_exp=c["tol_e"],
-                 singular_factor=c["singular"], rank_deficient_jacobian=c["dup"],
+                 singular_factor=c["singular"], rank_deficient_jacobian=c["dup"], contradictory_rows=c["stall"],
                  probe=c["probe"] or "none",
                  exit_by="+".join(n_ for n_, f_ in zip(("residual", "budget", "increment"), flags(prim["fx"], prim["dx"], k)) if not f_))
         C = gram(c["L"])
